@@ -141,3 +141,44 @@ func VerifC13TwoConsensusStates() {
 	_, ok2 := k.GetClientConsensusState(dst, chain, h2)
 	rt.Assert("G2-both-consensus-states-preserved", ok1 && ok2)
 }
+
+// VerifC13AfterLifecycleWithAnyConsensusState: the two parts of a lifecycle proposal are independent values - the consensus
+// state may belong to another client type than the client state (ValidateBasic looks at the client state only). Whatever a
+// SUCCESSFUL CreateClient / UpgradeClient leaves behind for such a pair is a reachable module state, so its export must pass
+// the module's own genesis validation (which demands that a consensus state is of its client's type).
+func VerifC13AfterLifecycleWithAnyConsensusState() {
+	rt.Opt("structured-keys")
+	rt.RegisterInterfaces(types.RegisterInterfaces)
+	rt.RegisterInterfaces(tsstypes.RegisterInterfaces)
+	rt.RegisterInterfaces(tmtypes.RegisterInterfaces)
+	rt.RegisterInterfaces(ethtypes.RegisterInterfaces)
+	k := genesisKeeper()
+	src := rt.EmptyCtx()
+	chain := "chain-a"
+	k.SetChainName(src, "teleport")
+	kind := rt.IntRange("type", 0, 2)
+	rt.Assume(kind != 1) // Tendermint and TSS client states (see VerifC13AfterToggle); the consensus state is of any of the three types
+	cs, own := c13Client(kind, "new")
+	cons := own
+	if consKind := rt.IntRange("consensusType", 0, 2); consKind != kind {
+		_, cons = c13Client(consKind, "foreign")
+		rt.Reach("consensus-state-of-another-client-type")
+	}
+	rt.Assume(cs.Validate() == nil && cons.ValidateBasic() == nil)
+	if rt.Bool("upgrade") {
+		cs0, cons0 := c13Client(kind, "old")
+		rt.Assume(cs0.Validate() == nil && cons0.ValidateBasic() == nil)
+		rt.Assume(k.CreateClient(src, chain, cs0, cons0) == nil)
+		if k.UpgradeClient(src, chain, cs, cons) != nil {
+			return // a refused proposal is rolled back by the governance cache context
+		}
+		rt.Reach("upgraded")
+	} else {
+		if k.CreateClient(src, chain, cs, cons) != nil {
+			return
+		}
+		rt.Reach("created")
+	}
+	gs := ExportGenesis(src, k)
+	rt.Assert("G1-export-after-a-successful-lifecycle-proposal-passes-validation", gs.Validate() == nil)
+}
